@@ -1,6 +1,7 @@
 package main
 
 import (
+	"strings"
 	"time"
 
 	"pgregory.net/rapid"
@@ -46,5 +47,42 @@ func respMain(e *Env, id string, client bool) (*res.Result, error) {
 		d.Servers = bf.Servers
 		return PkgSpec{Doc: d, Cfg: inproc.Config{DoNotEdit: true, Client: client, BasePath: bf.Flag}, Meta: map[string]any{"tags": tagList(c.Tags), "baseform": bf.Name}}
 	})
-	return compiledMain(e, id, specs, false, 25*time.Minute)
+	// generator distribution: specs in which one response component serves >=2
+	// distinct numeric statuses (across operations)
+	shared := 0
+	for _, s := range specs {
+		use := map[string]map[string]bool{}
+		for _, pi := range s.Doc.Paths {
+			for _, mo := range pi.Ops() {
+				for st, r := range mo.Op.Responses {
+					if r.Ref == "" || st == "default" {
+						continue
+					}
+					tgt := r.Ref
+					for i := 0; i < 8; i++ {
+						cr := s.Doc.Components.Responses[strings.TrimPrefix(tgt, specgen.RefResponses)]
+						if cr == nil || cr.Ref == "" {
+							break
+						}
+						tgt = cr.Ref
+					}
+					if use[tgt] == nil {
+						use[tgt] = map[string]bool{}
+					}
+					use[tgt][st] = true
+				}
+			}
+		}
+		for _, sts := range use {
+			if len(sts) >= 2 {
+				shared++
+				break
+			}
+		}
+	}
+	r, err := compiledMain(e, id, specs, false, 25*time.Minute)
+	if r != nil {
+		r.Extra["specs_with_component_shared_across_statuses"] = shared
+	}
+	return r, err
 }
